@@ -26,6 +26,7 @@ MODEL_FILES = ['MaltModel/Analysis/QualNames.lean', 'MaltModel/Analysis/Activity
 CLASSES = ['walrusInComp', 'harmfulLeaks', 'classShadow', 'argAnnotations', 'nonlocalBelow', 'globalBelow']
 PRELUDE_LINES = c08_gen.PRELUDE.count('\n')
 MAX_STORED_FAILS = 40
+NL = 6   # driver requests per case
 
 
 class Case(object):
@@ -60,6 +61,13 @@ def gen_cases(run):
         runnable = i % 2 == 0
         s, call = c08_gen.random_tree(run.rng, runnable=runnable, max_depth=2 + i % 2, handler_names=(i % 25 == 24))
         out.append(Case(s, 'f(%s)' % call, runnable, 'random'))
+    # control-flow skeletons of the shared generator (if/while/for/try/finally/with/nested def + nonlocal), executed
+    nsk = 250 if run.tier == 'quick' else 2500
+    sk_info = {}
+    for prog in progen.skeleton_programs(max_stmts=4 if run.tier == 'quick' else 5, max_depth=3, cap=nsk, rng=run.rng,
+                                         rich=run.tier != 'quick', info=sk_info):
+        out.append(Case(prog.function_source(), 'f(V(), V(), V())', True, 'skeleton'))
+    info['skeletons'] = sk_info
     for s in c08_gen.SEEDS:
         out.append(Case(s, '', False, 'seed'))
     info['random'] = nrand
@@ -209,6 +217,8 @@ def check_cases(run, cases, workdir, label, stats):
         p = prepare(c, workdir)
         if not p.valid:
             stats['rejected_by_cpython'] = stats.get('rejected_by_cpython', 0) + 1
+            if c.kind == 'corpus':
+                run.notes.append('corpus entry %s is not a valid program with a top-level function f (%s)' % (getattr(c, 'name', '?'), p.error))
             continue
         preps.append(p)
     # ---- one driver round trip for everything the Lean side computes
@@ -217,7 +227,7 @@ def check_cases(run, cases, workdir, label, stats):
         lines = []
         for p in preps:
             t = p.ser.text()
-            lines += ['c08.activity ' + t, 'c08.classes ' + t, 'c08.spec ' + t, 'c08.units ' + t, 'c08.hyp ' + t]
+            lines += ['c08.activity ' + t, 'c08.classes ' + t, 'c08.spec ' + t, 'c08.units ' + t, 'c08.hyp ' + t, 'c08.frag ' + t]
         answers = run.drive(lines) if lines else []
     results = []
     dis = {'activity': [], 'classes': [], 'spec-symtable': [], 'trace-in-spec-dynamic': []}
@@ -230,7 +240,7 @@ def check_cases(run, cases, workdir, label, stats):
         stats['blocks'] = stats.get('blocks', 0) + nblocks
         hyp, units = {}, None
         if answers is not None:
-            a_act, a_cls, a_spec, a_units, a_hyp = answers[5 * idx: 5 * idx + 5]
+            a_act, a_cls, a_spec, a_units, a_hyp, a_frag = answers[NL * idx: NL * idx + NL]
             try:
                 hyp = {k: set(v) for k, v in parse_sexp(a_hyp)}
             except Exception:
@@ -239,13 +249,21 @@ def check_cases(run, cases, workdir, label, stats):
                 if hyp.get(cl):
                     stats['class:' + cl] = stats.get('class:' + cl, 0) + 1
             if not any(hyp.get(cl) for cl in CLASSES):
-                stats['in_theorem_fragment'] = stats.get('in_theorem_fragment', 0) + 1
+                stats['free_of_all_deviation_classes'] = stats.get('free_of_all_deviation_classes', 0) + 1
+            try:
+                fr = [x == 'True' for x in parse_sexp(a_frag)]
+            except Exception:
+                fr = [False] * 4
+            if fr[0] and fr[2]:
+                stats['hypotheses_of_C08_dynamic_lookup_hold'] = stats.get('hypotheses_of_C08_dynamic_lookup_hold', 0) + 1
+            if all(fr) and not hyp.get('harmfulLeaks'):
+                stats['hypotheses_of_C08_classes_partial_hold'] = stats.get('hypotheses_of_C08_classes_partial_hold', 0) + 1
         # ---- set aside exactly what the property sets aside
         if p.impl.crash == 'handlerName':
             stats['set_aside:except_name_crash'] = stats.get('set_aside:except_name_crash', 0) + 1
             res['aside'] = 'handlerName'
-            if answers is not None and answers[5 * idx] != '(crash handlerName)':
-                dis['activity'].append({'source': c.src, 'implementation': '(crash handlerName)', 'model': answers[5 * idx][:300]})
+            if answers is not None and answers[NL * idx] != '(crash handlerName)':
+                dis['activity'].append({'source': c.src, 'implementation': '(crash handlerName)', 'model': answers[NL * idx][:300]})
             continue
         if p.impl.crash:
             cls = 'subscriptLiteralAssert' if p.impl.crash == 'literalAssert' else None
@@ -255,8 +273,8 @@ def check_cases(run, cases, workdir, label, stats):
                 run_fail(run, stats, 'the analysis raises %s: %s' % (type(p.impl.exc).__name__, str(p.impl.exc)[:120]),
                          dict(c.data(), observation=['crash', p.impl.crash]), cls)
                 res['failed'].append(cls)
-            if answers is not None and answers[5 * idx] != sexp(['crash', p.impl.crash]) and not p.is_async:
-                dis['activity'].append({'source': c.src, 'implementation': sexp(['crash', p.impl.crash]), 'model': answers[5 * idx][:300]})
+            if answers is not None and answers[NL * idx] != sexp(['crash', p.impl.crash]) and not p.is_async:
+                dis['activity'].append({'source': c.src, 'implementation': sexp(['crash', p.impl.crash]), 'model': answers[NL * idx][:300]})
             continue
         # ---- (3a) direct oracle: classification vs symtable
         for cat, fk, name in static_oracle(p):
